@@ -15,7 +15,18 @@
 (* A superblock has k*WB blocks of BB bits (code: WB = 4, BB = 8).         *)
 (***************************************************************************)
 EXTENDS Succinct, TLC
-CONSTANTS BB, WB, MaxN, MaxK
+CONSTANTS BB, WB, MaxN, MaxK, LemmaP, LemmaN
+
+\* the closed forms used for huge structured vectors equal the naive definitions (all periods <= LemmaP,
+\* all residue sets, n <= LemmaN, up to two flipped positions, every query)
+StructLemma ==
+    \A P \in 1..LemmaP : \A R \in SUBSET (0..(P - 1)) : \A n \in 1..LemmaN :
+      \A X \in {Y \in SUBSET (0..(n - 1)) : Cardinality(Y) <= 2} :
+        LET b == SBits(n, P, R, X) IN
+        \A x \in {0, 1} :
+          /\ \A i \in 0..(n + 1) : SRank(n, P, R, X, x, i) = Rank(b, x, i)
+          /\ \A j \in 0..(n + 1) : \A v \in -1..n : SSelectOk(n, P, R, X, x, j, v) <=> v = Select(b, x, j)
+ASSUME StructLemma
 
 VARIABLES bits, k, pc, sb1, sb0, cur, acc1, acc0, last1, last0,
           op, arg, lo, hi, blk, endb, rank, bit, res
